@@ -35,7 +35,7 @@ ASSUMPTIONS = [
   'the wrapped module itself (Linen apply / nnx.merge) is the reference: if it is wrong, wrapper and reference are wrong alike',
   'nothing is asserted about the wrapper Rngs after a call that raised (keys are drawn before the wrapped module runs)',
 ]
-PROBES = ['tonnx_runs', 'tolinen_runs', 'mutable_update_propagated', 'eval_call_no_update', 'roundtrip_split_merge', 'fault_in_wrapped', 'nested_in_nnx_parent', 'nested_in_linen_parent', 'partitioned_param_metadata', 'tolinen_sharding_metadata', 'tolinen_rng', 'convert_roundtrip', 'tolinen_falsy_metadata', 'user_metadata_set', 'custom_registered_type', 'name_reregistered']
+PROBES = ['tonnx_runs', 'tolinen_runs', 'mutable_update_propagated', 'eval_call_no_update', 'roundtrip_split_merge', 'fault_in_wrapped', 'nested_in_nnx_parent', 'nested_in_linen_parent', 'partitioned_param_metadata', 'tolinen_sharding_metadata', 'tolinen_rng', 'convert_roundtrip', 'tolinen_falsy_metadata', 'user_metadata_set', 'custom_registered_type', 'name_reregistered', 'failed_lazy_init_of_parent']
 
 
 def setup_worker(w, tier):
@@ -78,7 +78,9 @@ def setup_worker(w, tier):
       self.scale = nnx.Param(jnp.asarray(2.0, jnp.float32))
 
     def __call__(self, x, **kw):
-      return self.inner(x, **kw) * self.scale.value
+      y = self.inner(x, **kw)
+      P.CTL.event('parent-after-inner')
+      return y * self.scale.value
 
   class LParent(nn.Module):
     use_rng: bool
@@ -115,7 +117,7 @@ def generate(rs, tier):
         ops.append(dict(op='set_meta', var=g.randrange(64), key=g.choice(['synced', 'layer', 'note']), value=g.choice([False, 0, True, 3, 'x', None])))
       else:
         ops.append(dict(op='fault_call', at=g.randrange(64), mutable=g.choice([None, ['stats', 'batch_stats', 'cache']]), fill=g.randrange(3)))
-    return dict(engine='bridgeworld', knobs=dict(kind='tonnx', spec=sp, nested=g.random() < 0.3, seed=g.randrange(5), batch=g.choice([1, 2])), ops=ops)
+    return dict(engine='bridgeworld', knobs=dict(kind='tonnx', spec=sp, nested=g.random() < 0.3, failed_parent_init=g.random() < 0.4, seed=g.randrange(5), batch=g.choice([1, 2])), ops=ops)
   ops = []
   custom = g.random() < 0.3
   for _ in range(g.randrange(2, 7)):
@@ -228,6 +230,23 @@ class ToNNXWorld:
     self.top = NParent(self.w) if k['nested'] else self.w
     if k['nested']:
       res.probe('nested_in_nnx_parent')
+      if k.get('failed_parent_init'):
+        # the user runs lazy_init on the parent as well; it fails AFTER the inner wrapper ran (already initialised)
+        before, _ = extract(self.w)
+        P.CTL.reset()
+        try:
+          self.top(self.x0)
+        except Exception:  # noqa: BLE001
+          pass
+        n = P.CTL.count
+        P.CTL.reset(fail_at=n - 1)
+        try:
+          bridge.lazy_init(self.top, self.x0)
+        except P.InjectedFault:
+          res.fault('raise@callback')
+          res.probe('failed_lazy_init_of_parent')
+        P.CTL.reset()
+        self.rngs = self.w.rngs
     self.calls = 0
 
   def check_types(self, where, what):
